@@ -132,7 +132,7 @@ def runObs (fixed : Bool) (s : St) (t : Nat) (ok always : Bool) (writes : List (
     | .run =>
       if s'.crashed then "crash" else if !ok then "fail"
       else if (saveSuccess s.checker (s.defs t).deps ((applyWrites (peek s t) writes).rcd t)
-                (applyWrites (peek s t) writes).fs Values.empty none matches .missing) then "save-missing" else "ok"
+                (applyWrites (peek s t) writes).fs Values.empty none matches .ok _) then "ok" else "save-missing"
 
 def resetObs (fixed : Bool) (s : St) (t : Nat) (s' : St) : String :=
   if (s.defs t).deps.any (depMissing s.fs) then "failed"
